@@ -537,13 +537,6 @@ func (r *Resolver) resolve(ctx context.Context, rs *resolveState) (*dns.Msg, err
 	return r.authority(ctx, rs.req, m, rs.parentDS, rs.servers.Zone)
 }
 
-// groupLookup collapses concurrent identical lookups onto one leader
-// through singleflight. owned declares the request handed over: the leader
-// closure may retain and read it past this call's return, so owned=true is
-// only correct when nothing upstack mutates req afterward — today that is
-// exactly minimize's private copy, which handleLookupError at most reads.
-// A shared request (rs.req) must pass owned=false so the leader gets its
-// own copy, made while the caller still exclusively owns the memory.
 // forwardedSubnet names the client-subnet option a request carries ("" when
 // it has none): family, source length, scope and address.
 func forwardedSubnet(req *dns.Msg) string {
@@ -559,6 +552,13 @@ func forwardedSubnet(req *dns.Msg) string {
 	return ""
 }
 
+// groupLookup collapses concurrent identical lookups onto one leader
+// through singleflight. owned declares the request handed over: the leader
+// closure may retain and read it past this call's return, so owned=true is
+// only correct when nothing upstack mutates req afterward — today that is
+// exactly minimize's private copy, which handleLookupError at most reads.
+// A shared request (rs.req) must pass owned=false so the leader gets its
+// own copy, made while the caller still exclusively owns the memory.
 func (r *Resolver) groupLookup(ctx context.Context, rs *resolveState, req *dns.Msg, servers *authority.Servers, owned bool) (resp *dns.Msg, err error) {
 	q := req.Question[0]
 
@@ -2870,6 +2870,19 @@ func (r *Resolver) internalExchange(ctx context.Context, req *dns.Msg) (*dns.Msg
 	return (*q).Query(ctx, req)
 }
 
+// requestLocalFailure reports whether resp is a failure that belongs to this
+// request alone: one learned inside an optional-enrichment tree, or after the
+// caller's own deadline or cancellation. The store turns a failure response
+// into a shared failure entry that answers everyone's next lookup; the other
+// two writers of that entry — recordResolutionZoneFailure and the cache's
+// response writer — already decline these.
+func requestLocalFailure(ctx context.Context, resp *dns.Msg) bool {
+	if class, _ := dnsutil.ClassifyResponse(resp, time.Now()); class != dnsutil.TypeServerFailure {
+		return false
+	}
+	return middleware.IsBestEffortRecursionWork(ctx) || contextutil.EffectiveError(ctx) != nil
+}
+
 // subQuery answers a resolver-constructed DNSSEC record lookup (DS
 // or DNSKEY) via cache-first direct resolution. It deliberately
 // bypasses the middleware chain — no failover, no local-answer
@@ -2893,19 +2906,6 @@ func (r *Resolver) internalExchange(ctx context.Context, req *dns.Msg) (*dns.Msg
 // subQuery is nil-safe for a nil store — tests and forwarder-only
 // deployments construct a Resolver without one. In that case only
 // the direct-upstream path runs; nothing is cached or read.
-// requestLocalFailure reports whether resp is a failure that belongs to this
-// request alone: one learned inside an optional-enrichment tree, or after the
-// caller's own deadline or cancellation. The store turns a failure response
-// into a shared failure entry that answers everyone's next lookup; the other
-// two writers of that entry — recordResolutionZoneFailure and the cache's
-// response writer — already decline these.
-func requestLocalFailure(ctx context.Context, resp *dns.Msg) bool {
-	if class, _ := dnsutil.ClassifyResponse(resp, time.Now()); class != dnsutil.TypeServerFailure {
-		return false
-	}
-	return middleware.IsBestEffortRecursionWork(ctx) || contextutil.EffectiveError(ctx) != nil
-}
-
 func (r *Resolver) subQuery(ctx context.Context, req *dns.Msg) (*dns.Msg, error) {
 	store := r.store.Load()
 	if store != nil {
